@@ -71,6 +71,10 @@ def cases(tier, seed):
     for i, c in enumerate(out):
         if i % 4 == 1:
             c["bounds"] = "unit"
+        if i % 5 == 2 and c.get("kind") != "highdim" and c["affine"]:
+            # the instance declares a periodic parameter: whatever the proposal does with that option, its density over the
+            # user's space must still integrate to one and agree with the density returned with its draws
+            c["periodic"] = True
     return out
 
 
@@ -161,6 +165,7 @@ def build_flow(case, g, stage_untrained):
             flow_backend=backend,
             xp=fxp,
             dtype=dt,
+            periodic_parameters=[params[0]] if case.get("periodic") else None,
             **fkw,
         )
         a.fit(Samples(fxp.asarray(data), xp=fxp, parameters=params), **fit_kw)
@@ -348,7 +353,7 @@ def run_case(case):
     counters = Counter({k: 0 for k in REQUIRED_COUNTERS})
     viol = []
     g = np.random.default_rng(case["seed"])
-    where = f"{case['backend']} bounded={case['bt']} affine={case['affine']} {case['dtype']} data={case['data']} d={case["d"]} bounds={case.get("bounds", "random")}"
+    where = f"{case['backend']} bounded={case['bt']} affine={case['affine']} {case['dtype']} data={case['data']} d={case["d"]} bounds={case.get("bounds", "random")} periodic={bool(case.get("periodic"))}"
     counters["configurations"] += 1
     integrals = {}
     # untrained (weights at initialisation, data transform fitted)
